@@ -23,8 +23,9 @@ def slug(s):
 
 
 def write_replay(prop, v, tier):
-    os.makedirs(os.path.join(VERIF, 'replays'), exist_ok=True)
-    path = os.path.join(VERIF, 'replays', '%s-%s.json' % (prop, slug(v['fn'] + '-' + v['label'])))
+    rdir = os.environ.get('VERIF_REPLAY_DIR', os.path.join(VERIF, 'replays'))
+    os.makedirs(rdir, exist_ok=True)
+    path = os.path.join(rdir, '%s-%s.json' % (prop, slug(v['fn'] + '-' + v['label'])))
     w = v.get('witness') or {}
     found = bool(w.get('test'))
     doc = {
